@@ -270,13 +270,15 @@ PROPS = {
         "design_ref": "DESIGN.md section 6 C19",
         "jobs": [
             {"unit": "c19"},
+            {"unit": "c05", "tiers": ["quick"]},  # constant-parameter APIs of the data-movement unit (shuffle / slide / rotate / insert), reported under C19
             {"unit": "c05full", "tiers": ["thorough"]},
             {"unit": "c19", "variant": "clang", "tiers": ["thorough"]},
         ],
         "rule": "each evaluation = one lane of one instantiated constant (or of one constant-parameter API call) compared with the pack / scalar operation / run-time form; "
                 "families: one-hot and all-but-one for every lane, arange, constant, alternating, prefix, all-true/false, 4 random bool packs, 7 value packs, 6 operator "
-                "pack pairs (3 with negative values for the signed types), a compact set of swizzle/shuffle masks and insert indices (quick) plus the full constant-mask "
-                "families of the data-movement unit (thorough); distinct cell = (monitor, type, arch, family/operator); " + ALL22,
+                "pack pairs (3 with negative values for the signed types), a compact set of swizzle/shuffle masks (incl. the packs on and one index away from the in-lane "
+                "fast-path shapes) and insert indices, plus the constant-mask / constant-count families of the data-movement unit (every slide and rotate count; "
+                "quick: base families, thorough: full families); distinct cell = (monitor, type, arch, family/operator); " + ALL22,
         "assumptions": COMMON_ASSUME + ["mask() only for batches of at most 32 lanes (width of its int result)"],
         "floor": {"quick": 10**5, "thorough": 10**5},
         "build_failure_is_violation": True,
